@@ -94,18 +94,25 @@ type AsArg struct {
 }
 
 type Op struct {
-	Op     string   `json:"op"`
-	Parent int      `json:"parent"`
-	Scope  int      `json:"scope"`
-	Fn     int      `json:"fn"`
-	Name   string   `json:"name"`
-	Group  string   `json:"group"`
-	As     []AsArg  `json:"as"`
-	Export bool     `json:"export"`
-	Cb     bool     `json:"cb"`
-	Info   bool     `json:"info"`
-	Opts   []string `json:"opts"`
-	ErrOf  *int     `json:"errOf"`
+	Op     string  `json:"op"`
+	Parent int     `json:"parent"`
+	Scope  int     `json:"scope"`
+	Fn     int     `json:"fn"`
+	Name   string  `json:"name"`
+	Group  string  `json:"group"`
+	As     []AsArg `json:"as"`
+	Export bool    `json:"export"`
+	// Exports, when present, makes the executor pass dig.Export once per element, in order (the last one counts
+	// and equals Export)
+	Exports []bool `json:"exports"`
+	Cb      bool   `json:"cb"`
+	// Loc (with "loc" among opts): dig.LocationForPC(code pointer of function Loc) is passed to Provide
+	Loc int `json:"loc"`
+	// CbPanic k > 0: the callback registered by this operation panics on its k-th call (unmodelled programs only)
+	CbPanic int      `json:"cbpanic"`
+	Info    bool     `json:"info"`
+	Opts    []string `json:"opts"`
+	ErrOf   *int     `json:"errOf"`
 }
 
 func (o Op) hasOpt(name string) bool {
